@@ -162,6 +162,19 @@ class Evaluator:
         if path in self.calls:
             return self.calls[path](self, t[2])
         short = path.split("<")[0]
+        if path == "robust::orient2d":
+            pts = []
+            for x in t[2]:
+                v = self.ev(x)
+                if isinstance(v, dict):
+                    pts.append((v["x"], v["y"]))
+                else:
+                    pts.append((v[0], v[1]))
+            (px, py), (qx, qy), (rx, ry) = pts
+            # robust::orient2d returns a value whose sign is that of the exact determinant (positive = counter-clockwise)
+            return (qx - px) * (ry - qy) - (qy - py) * (rx - qx)
+        if path.endswith("NumCast>::from") or path == "num_traits::cast::NumCast::from":
+            return Enum("core::option::Option", "Some", [self.ev(t[2][0])])
         if path.endswith("Kernel::orient2d") or path.endswith("::orient2d"):
             p, q, r = (self.ev(x) for x in t[2])
             return Enum(ORIENTATION, orient(p, q, r))
